@@ -82,7 +82,7 @@ Definition judge_stream (st expected : bytes) : bytes :=
   let b := unhex st in
   match parse_all (S (List.length b)) b [] with
   | Some vs =>
-      match as_entries true vs with
+      match as_entries false vs with
       | Some es => if bytes_eqb (show_sentries es) expected then str "ok" else str "bad:value:" ++ show_sentries es
       | None => str "bad:not-entries"
       end
